@@ -540,6 +540,36 @@ func c10W4(c *mon.Ctx) {
 			objs = append(objs, o)
 		}
 	}
+	// first in WAVES of 16 neighbours of the enumeration (neighbours are members of one family with similar shapes):
+	// each wave is released by its own barrier, one object per goroutine, so that whatever a shape touches for the first
+	// time in this process - a lazily built table, a memo - is touched by several goroutines AT THE SAME MOMENT. (A
+	// static partition of the whole list lets the 16 goroutines drift apart; the race detector then often sees an
+	// accidental happens-before edge - sync.Pool inside fmt / regexp - between the first touch and the next one.)
+	// Calls of different waves are ordered by the barriers, calls within a wave are not.
+	waveRes := make([]mon.Snap, len(objs))
+	for w := 0; w < len(objs); w += 16 {
+		n := len(objs) - w
+		if n > 16 {
+			n = 16
+		}
+		// parsed BEFORE the barrier: after it the goroutines do nothing but lint, so the calls start together
+		own := make([]*mon.Obj, n)
+		for k := range own {
+			own[k] = objs[w+k].Reparse()
+		}
+		c10Parallel(16, n, func(gi, k int) {
+			if own[k] == nil {
+				return
+			}
+			if rs, pv, _ := own[k].Lint(g); pv == nil && rs != nil {
+				waveRes[w+k] = mon.SnapOf(rs)
+			}
+		})
+		if w%1024 == 0 {
+			c.Tick()
+		}
+	}
+	c.R.Count("w4_waves", int64((len(objs)+15)/16))
 	stopReaders := c10StartReaders(c, 2, 9000)
 	res := make([]mon.Snap, len(objs))
 	pvs := make([]any, len(objs))
@@ -573,6 +603,12 @@ func c10W4(c *mon.Ctx) {
 			continue
 		}
 		c.R.Count("w4_objects", 1)
+		if waveRes[k] != nil {
+			for _, d := range dropClock(day, mon.Diff(mon.SnapOf(rs), waveRes[k], false, false)) {
+				name := strings.SplitN(d, ":", 2)[0]
+				c.V("concurrent-differs|w4-wave|"+name, fmt.Sprintf("lint %s: the call made in a wave of 16 simultaneous calls on neighbouring directed-family objects (%s) differs from the same call made alone afterwards: %s", name, o.Name, clipS(d, 240)), name, inputs(o), nil)
+			}
+		}
 		for _, d := range dropClock(day, mon.Diff(mon.SnapOf(rs), res[k], false, false)) {
 			name := strings.SplitN(d, ":", 2)[0]
 			c.V("concurrent-differs|w4|"+name, fmt.Sprintf("lint %s: the call made concurrently (directed-family object %s) differs from the same call made alone afterwards: %s", name, o.Name, clipS(d, 240)), name, inputs(o), nil)
